@@ -1259,4 +1259,5 @@ ALL_CRATES = {"linfa", "linfa_bayes", "linfa_clustering", "linfa_elasticnet", "l
 def rules(tier):
     from . import carry
     return [rule_range, rule_same, rule_dom, rule_forge, rule_default, rule_setter, rule_carry,
-            carry.make_clone_rule("R-C04-clone", ALL_CRATES, 40), carry.make_setter_rule("R-C04-override", ALL_CRATES, 60)]
+            carry.make_clone_rule("R-C04-clone", ALL_CRATES, 40), carry.make_setter_rule("R-C04-override", ALL_CRATES, 60),
+            carry.make_accessor_rule("R-C04-accessor", ALL_CRATES, 80), carry.make_ctor_rule("R-C04-ctor", ALL_CRATES, 30)]
